@@ -54,9 +54,9 @@ def VP(fq, n):
 SC = "barril.units._scalar:Scalar"
 QM = "barril.units._quantity"
 PROPS["C02"] = {
-    "tasks": lambda tier: [V(UDB + ":UnitDatabase.Convert"), V(UDB + ":UnitDatabase.GetInfo"), V(QM + ":Quantity.ConvertScalarValue"), V(QM + ":Quantity.__init__"), *VP(QM + ":ObtainQuantity", 16), V(SC + ".GetAbstractValue")],
+    "tasks": lambda tier: [V(UDB + ":UnitDatabase.Convert"), V(UDB + ":UnitDatabase.GetInfo"), V(QM + ":Quantity.ConvertScalarValue"), V(QM + ":Quantity.__init__"), *VP(QM + ":ObtainQuantity", 16), V(SC + ".GetAbstractValue"), V("barril.units._abstractvaluewithquantity:AbstractValueWithQuantityObject.CreateCopy"), V("barril.units._array:Array.GetAbstractValue"), V("barril.units._abstractvaluewithquantity:AbstractValueWithQuantityObject.__init__#forms")] + VP("barril.units._fixedarray:FixedArray#operations", 15) + VP("barril.units.unit_system_manager:UnitSystemManager#operations", 12) + VP("barril.units._fraction_scalar:FractionScalar#like-a-scalar", 7),
     "level": "proof",
-    "level_text": "Functional contracts, proved of the real bodies for arbitrary well-formed registries and all values: UnitDatabase.Convert (float/int/list/tuple/ndarray, elementwise, kind preserving) = conv; Quantity.ConvertScalarValue; Quantity.__init__ establishes the cached to-base function; ObtainQuantity resolution; Scalar.GetAbstractValue (own unit returns the stored value for simple and derived quantities) and CreateCopy on Scalars keep category. Routes not yet under contract: Array.GetValues, FixedArray.IndexAsScalar/ChangingIndex, ChangeScalars, UnitSystemManager.ConvertToCurrent.",
+    "level_text": "Functional contracts, proved of the real bodies for arbitrary well-formed registries and all values: UnitDatabase.Convert (float/int/list/tuple/ndarray, elementwise, kind preserving) = conv; Quantity.ConvertScalarValue; Quantity.__init__ establishes the cached to-base function; ObtainQuantity resolution; Scalar.GetAbstractValue (own unit returns the stored value for simple and derived quantities) and CreateCopy on Scalars keep category. Array.GetValues (list, tuple, ndarray of unbounded length; sequences of tuples shape-bounded) = conv elementwise in a new container of the same kind, own unit / no unit returns the stored container; FixedArray.IndexAsScalar / ChangingIndex / CreateCopy(unit) (C11 contract); UnitSystemManager.ConvertToCurrent / ConvertScalarToCurrent (category kept); FractionScalar.GetValue (to within 1e-8, scale-only units); an object built from a category alone in a given unit carries the category default (construction-forms contract). ChangeScalars is a two-line wrapper over CreateCopy(value, unit) and is not separately under contract.",
     "level_note": "floats are reals; WF/QI assumed for inputs",
 }
 
@@ -139,10 +139,10 @@ PROPS["C15"] = {
     "trusted": STD_TRUSTED,
 }
 PROPS["C12"] = {
-    "tasks": lambda tier: [V(QM + ":Quantity.CheckValue"), V(QM + ":Quantity.ConvertScalarValue")] + VP(ADDCAT, 16) + table_tasks("table_c14"),
+    "tasks": lambda tier: [V(QM + ":Quantity.CheckValue"), V(QM + ":Quantity.ConvertScalarValue"), V(SC + ".CheckValidity"), V("barril.units._array:Array._DoValidateValues#flat")] + VP("barril.units._fraction_scalar:FractionScalar#like-a-scalar", 7) + VP(ADDCAT, 16) + table_tasks("table_c14"),
     "level": "proof",
-    "level_text": "Quantity.CheckValue is verified against the functional contract 'accepts exactly when the amount re-expressed in the category's default unit satisfies the limits': for a symbolic category (limits present/absent, inclusive/exclusive, symbolic reals), a symbolic unit of its type and an extended float (NaN, +inf, -inf flags) it returns iff both limits hold for y = conv(unit -> default unit)(value), otherwise raises QuantityValidationError carrying y, the violated limit (min before max) and the operator matching exclusivity, in symbols or words; NaN satisfies no limit; derived quantities are accepted. AddCategory is proved never to register a default unit outside the category's quantity type or a default value outside its own limits (W3 of the new entry, for all combinations of given / inherited / absent limits, default value and default unit), and the shipped tables satisfy the same row by row. Scalar/FractionScalar/Array IsValid/CheckValidity wrappers and the Array min/max scan are not yet under contract.",
-    "level_note": "unit-independence is by construction of the contract (the verdict is a function of conv(unit -> default unit)(value) only) together with C01's monotonicity lemma; floats are reals with NaN/inf flags; Array validation not yet claimed",
+    "level_text": "Quantity.CheckValue is verified against the functional contract 'accepts exactly when the amount re-expressed in the category's default unit satisfies the limits': for a symbolic category (limits present/absent, inclusive/exclusive, symbolic reals), a symbolic unit of its type and an extended float (NaN, +inf, -inf flags) it returns iff both limits hold for y = conv(unit -> default unit)(value), otherwise raises QuantityValidationError carrying y, the violated limit (min before max) and the operator matching exclusivity, in symbols or words; NaN satisfies no limit; derived quantities are accepted. AddCategory is proved never to register a default unit outside the category's quantity type or a default value outside its own limits (W3 of the new entry, for all combinations of given / inherited / absent limits, default value and default unit), and the shipped tables satisfy the same row by row. Scalar.CheckValidity / IsValid and FractionScalar.CheckValidity are proved to be exactly CheckValue of the stored amount (derived quantities always valid). Array.CheckValidity / IsValid on flat lists, tuples and ndarrays of unbounded length whose elements are finite numbers or NaN: the real scan (skip leading NaNs, then running minimum/maximum over the same iterator) is verified with two loop invariants (every consumed element is NaN; min <= every non-NaN element seen <= max, both attained) - init, preservation and exhaustion obligations - and, with C01's monotonicity of conversions, 'accepted iff every non-NaN amount satisfies the limits' is proved for every length, order and container kind.",
+    "level_note": "unit-independence is by construction of the contract (the verdict is a function of conv(unit -> default unit)(value) only) together with C01's monotonicity lemma (assumed as a precondition where the scan needs it); floats are reals with NaN/inf flags; Array elements finite or NaN (no infinities); the tuple-of-tuples branch of the scan and the ValidateValues memo across calls are replayed natively (probe validity) but not under contract; which limit a rejected Array reports is not specified",
     "trusted": STD_TRUSTED,
 }
 
